@@ -185,6 +185,10 @@ def _(c):
     mb1 = S1.t(MB)
     # C13: whatever is left was active after `old` or is subscribed (and was touched): nothing idle survives
     yield "all_remaining_fresh", mb1.forall(lambda r: r.updated > old), ["C13"]
+    mb0 = S0.t(MB)
+    # ... and only what was protected remains: no new rows, and every survivor was active after `old` or subscribed
+    yield "only_protected_remain", FA([INT], lambda r: Implies(mb1.live[r], And(
+        mb0.live[r], Or(mb0.cols["updated"][r] > old, sub_row(S0, mb0, r)))), pats=lambda r: [mb1.live[r]]), ["C13"]
     yield "committed", I.Clean(S1), ["C09"]
     yield "preserves.apps_wf", apps_wf(S1), ["C02", "C11"]
     yield "preserves.GH4", HI.GH4(S1), ["C02", "C12"]
@@ -218,12 +222,19 @@ def _(c, L):
         yield "protected_kept." + n, t
     mbS = S.t(MB)
     yield "done_apps_fresh", mbS.forall(lambda r: Implies(L.done(r.app_id), r.updated > old))
+    mbE_ = E.t(MB)
+    yield "done_apps_only_protected", FA([INT], lambda r: Implies(
+        And(mbS.live[r], L.done(mbS.cols["app_id"][r])),
+        Or(mbE_.cols["updated"][r] > old, sub_row(E, mbE_, r))), pats=lambda r: [mbS.live[r]])
     # rows of the apps not yet processed are as at loop entry (prune only touches its own app)
     mbE = E.t(MB)
     yield "pending_untouched", FA([INT], lambda r: Implies(And(mbE.live[r], Not(L.done(mbE.cols["app_id"][r]))),
-                                                           And(mbS.live[r], mbS.cols["app_id"][r] == mbE.cols["app_id"][r])),
+                                                           And(mbS.live[r], mbS.cols["app_id"][r] == mbE.cols["app_id"][r],
+                                                               mbS.cols["id"][r] == mbE.cols["id"][r],
+                                                               mbS.cols["updated"][r] == mbE.cols["updated"][r])),
                                   pats=lambda r: [mbS.live[r], mbE.live[r]])
-    yield "no_new_rows", FA([INT], lambda r: Implies(mbS.live[r], And(mbE.live[r], mbS.cols["app_id"][r] == mbE.cols["app_id"][r])),
+    yield "no_new_rows", FA([INT], lambda r: Implies(mbS.live[r], And(mbE.live[r], mbS.cols["app_id"][r] == mbE.cols["app_id"][r],
+                                                                      mbS.cols["id"][r] == mbE.cols["id"][r])),
                             pats=lambda r: [mbS.live[r]])
 
 
